@@ -391,6 +391,106 @@ def build():
                    "implies(self._canceled, n_scheduled() == 0)")],
          modifies=["self._last_call", "self._canceled"] + GHL, raises={})
 
+    # ------------------------------------------------------------------ Timer device
+    TIMER = "mpf/devices/timer.py"
+    C.cls("Player", fields={})
+    C.ext("Player.__setitem__", model=common.noop, trusted_reason="mirrors the tick value into a player variable (C11)")
+    common.declare_events(C)
+    C.ext("EventManager.process_event_queue",
+          model=lambda I, env, a, k: (emit(I, "process_event_queue"), NONE)[1],
+          trusted_reason="event queue drain (verified under C01)")
+
+    def sched_interval(I, env, args, kwargs):
+        emit(I, "schedule_interval", callback=args[0], secs=args[1])
+        return VOpaque("PeriodicTaskRef", z3.Const(I.fresh_name("task"), usort("PeriodicTaskRef")))
+
+    def unsched(I, env, args, kwargs):
+        emit(I, "unschedule", what=args[0])
+        return NONE
+    C.cls("TimerClock", fields={})
+    C.ext("TimerClock.schedule_interval", model=sched_interval,
+          trusted_reason="ClockBase.schedule_interval -> PeriodicTask (verified above): ticks once per interval")
+    C.ext("TimerClock.unschedule", model=unsched, trusted_reason="cancels the periodic task (verified above)")
+    common.declare_delay_client(C, cls="DelayClient")      # the timer's own delay manager, client view
+    C.cls("ModeDevice", fields={})
+    C.cls("Timer", file=TIMER, bases=["ModeDevice"], fields=dict(
+        running=Bool, _ticks=Int, end_value=Opt(Int), direction=Str, ticks_remaining=Opt(Int), tick_secs=Real,
+        timer=Opt(Opaque("PeriodicTaskRef")), name=Str, player=Opt(ObjS("Player")), tick_var=Str,
+        restart_on_complete=Bool, _debug=Bool, max_value=Opt(Int), start_value=Int,
+        machine=ObjS("MachineController", clock=ObjS("TimerClock"), events=ObjS("EventManager")),
+        delay=Init(lambda I, name: common.fresh_delay_manager(I, name, cls="DelayClient"))),
+        invariants=[("direction is up or down", "self.direction == 'up' or self.direction == 'down'"),
+                    ("a count-down timer has an end value", "implies(self.direction == 'down', self.end_value is not None)")])
+    C.fn("Timer.ticks", is_property=True, inline=True, no_inv=True)
+    C.fn("Timer.ticks@setter", inline=True, no_inv=True)
+    C.fn("Timer._remove_system_timer", inline=True, no_inv=True)
+    C.fn("Timer._create_system_timer", inline=True, no_inv=True)
+    C.fn("Timer._post_tick_events", inline=True, no_inv=True)
+
+    def tposts(I, suffix):
+        """number of posts of event 'timer_<name>_<suffix>' on the path"""
+        this = I.frames[0].env["self"].ref
+        nm = I.force(I.read_field(this, "name")).t
+        want1 = z3.Concat(z3.StringVal("timer_"), nm, z3.StringVal("_" + suffix))
+        acc = z3.IntVal(0)
+        for e in events_named(I, "post"):
+            ev = I.force(e.args["event"])
+            acc = acc + z3.If(ev.t == want1, 1, 0)
+        return VInt(acc)
+    for sfx in ("tick", "complete", "stopped", "started", "paused"):
+        C.helpers["posted_" + sfx] = (lambda sf: (lambda I: tposts(I, sf)))(sfx)
+    C.helpers["n_unscheduled"] = lambda I: VInt(len(events_named(I, "unschedule")))
+    C.helpers["n_intervals"] = lambda I: VInt(len(events_named(I, "schedule_interval")))
+    C.helpers["completions"] = lambda I: VInt(len(events_named(I, "timer_complete")))
+    C.trace_helpers |= {"posted_tick", "posted_complete", "posted_stopped", "posted_started", "posted_paused",
+                        "n_unscheduled", "n_intervals", "completions"}
+    DONE = ("((self.direction == 'up' and self.end_value is not None and %s >= self.end_value) or "
+            "(self.direction == 'down' and %s <= self.end_value))")
+    TM = ["self.running", "self._ticks", "self.timer", "self.ticks_remaining", "self.delay.pending", "self.tick_secs"]
+
+    def emit_complete(I, env, res):
+        emit(I, "timer_complete", via="contract")
+    C.fn("Timer.timer_complete", external=True, emits=emit_complete, modifies=TM,
+         trusted_reason="stops the timer, posts timer_<name>_complete, restarts if configured (its first step, "
+                        "stop(), is verified below; the restart chain reset->jump->start is not under contract)")
+    C.fn("Timer._check_for_done", result=Bool,
+         lets={"done": DONE % ("self._ticks", "self._ticks")},
+         ensures=[("a timer completes exactly when its count reaches (or passes) its end value in its direction",
+                   "result == done and completions() == (1 if done else 0)"),
+                  ("not done: nothing but the remaining-ticks bookkeeping changes",
+                   "implies(not done, self._ticks == old(self._ticks) and self.running == old(self.running) and "
+                   "self.timer == old(self.timer))")],
+         emits=lambda I, env, res: (emit(I, "timer_complete", via="contract") if I.ctx.branch(I.force(res).t) else None),
+         modifies=TM, raises={})
+    C.fn("Timer.stop",
+         ensures=[("stopped: not running and no periodic tick left", "self.running == False and self.timer is None"),
+                  ("the pending un-pause is cancelled", "not pause_pending()"),
+                  ("count unchanged", "self._ticks == old(self._ticks)"),
+                  ("stopped event once", "posted_stopped() == 1")],
+         modifies=["self.running", "self.timer", "self.delay.pending"], raises={},
+         emits=lambda I, env, res: None)
+    C.fn("Timer.pause", params=dict(timer_value=Const(0)),
+         ensures=[("paused: not running and no periodic tick left", "self.running == False and self.timer is None"),
+                  ("count unchanged", "self._ticks == old(self._ticks)")],
+         modifies=["self.running", "self.timer", "self.delay.pending"], raises={}, emits=lambda I, env, res: None)
+    C.helpers["pause_pending"] = lambda I: VBool(common.delay_present(
+        I, I.force(I.read_field(I.frames[0].env["self"].ref, "delay")).ref, "pause"))
+    NEWT = "(old(self._ticks) - 1 if self.direction == 'down' else old(self._ticks) + 1)"
+    C.fn("Timer._timer_tick",
+         lets={"nt": "(self._ticks - 1 if self.direction == 'down' else self._ticks + 1)"},
+         ensures=[
+             ("never ticks while paused or stopped: the count does not move, nothing is posted, and the stray "
+              "periodic task is removed",
+              "implies(not old(self.running), self._ticks == old(self._ticks) and posted_tick() == 0 and "
+              "completions() == 0 and self.timer is None)"),
+             ("running: exactly one step in the timer's direction (unless that step completes it)",
+              "implies(old(self.running) and not %s, self._ticks == nt and posted_tick() == 1 and "
+              "completions() == 0)" % (DONE % ("nt", "nt"))),
+             ("running: completes exactly when the step reaches the end value",
+              "implies(old(self.running) and %s, completions() == 1 and posted_tick() == 0)" % (DONE % ("nt", "nt"))),
+         ],
+         modifies=TM, raises={})
+
     def handle_info(I, cz, v, heap):
         out = {}
         for f, shape in (("live", Bool), ("when", Real), ("mine", Bool), ("dname", Str), ("dcb", Fn), ("dkw", KW)):
